@@ -29,6 +29,14 @@ class DocActions(object):
 
     self._engine.add_records(table_id, row_ids, column_values)
 
+    # As in BulkUpdateRecord: non-formula columns with a trigger formula may get recalculated when
+    # the values of the new records count as changes to their dependencies. Prevent that for
+    # columns given an explicit value.
+    for col_id in column_values:
+      col = table.get_column(col_id)
+      if not col.is_formula():
+        self._engine.prevent_recalc(col.node, row_ids, should_prevent=True)
+
   def RemoveRecord(self, table_id, row_id):
     return self.BulkRemoveRecord(table_id, [row_id])
 
